@@ -65,6 +65,10 @@ pub fn silence_panics() {
     // anonymous mmap (zero pages on demand): SELECT-heavy loops run several times faster.
     unsafe {
         libc::mallopt(libc::M_MMAP_THRESHOLD, 1 << 20);
+        // and the engine frees a large top-of-heap block per statement: keep glibc from trimming and
+        // regrowing the heap every time
+        libc::mallopt(libc::M_TRIM_THRESHOLD, 1 << 30);
+        libc::mallopt(libc::M_TOP_PAD, 64 << 20);
     }
     if std::env::var("VERIF_SHOW_PANICS").is_ok() {
         return;
